@@ -278,7 +278,8 @@ static std::string run_ops(Set& set, bool hash, const std::vector<std::string>& 
 				typename Set::result r(set.insert(&e));
 				os << (r.second ? 1 : 0) << '@';
 				if (r.first == set.end()) os << '-';
-				else if (r.first >= set.begin() && r.first < set.end()) os << (r.first - set.begin());
+				else if (r.first >= set.begin() && r.first < set.end())
+					{ os << (r.first - set.begin()) << '='; show(os, *r.first); }	// index and the element it points to
 				else os << "STALE";
 			}
 			break;
